@@ -15,6 +15,7 @@ from typing import Dict, List, Optional, Tuple
 from .core import Repo, ModInfo, unparse
 
 _obj_cache: Dict[str, object] = {}
+_sig_cache: Dict[str, object] = {}
 
 
 def _dotted(mi: ModInfo, e: ast.AST) -> Optional[str]:
@@ -81,9 +82,13 @@ def check_calls(repo: Repo, files: Optional[List[str]] = None):
             if obj is None:
                 yield rel, q, n, d, "unresolved", "callee cannot be resolved in the runtime environment"
                 continue
-            try:
-                sig = inspect.signature(obj)
-            except (TypeError, ValueError):
+            if d not in _sig_cache:
+                try:
+                    _sig_cache[d] = inspect.signature(obj)
+                except (TypeError, ValueError):
+                    _sig_cache[d] = None
+            sig = _sig_cache[d]
+            if sig is None:
                 yield rel, q, n, d, "nosig", ""
                 continue
             if any(isinstance(a, ast.Starred) for a in n.args) or any(k.arg is None for k in n.keywords):
